@@ -49,14 +49,14 @@ def tasks(tier):
                 n = int(sids[0][1:])
                 k = {4: 25, 3: 3}.get(n, 1)
                 for c in range(k):
-                    out.append({"algo": algo, "group": g, "mode": "W", "chunk": [c, k], "_cost": 5 ** n / k * (1 + n)})
+                    out.append({"algo": algo, "group": g, "mode": "W", "chunk": [c, k], "_cost": 5 ** n / k * 0.03 * n})
             for kind in cm.OBS_KINDS:
-                out.append({"algo": algo, "group": g, "mode": "S", "obs": kind, "_cost": 100})
+                out.append({"algo": algo, "group": g, "mode": "S", "obs": kind, "_cost": (3 if tier == "thorough" else 1) * {"D4": 14, "D2+D3": 11}.get(g, 5)})
         for g, style, sids in BOX_GROUPS:
             if style == "homo":
-                out.append({"algo": algo, "group": g, "mode": "W", "_cost": 20})
+                out.append({"algo": algo, "group": g, "mode": "W", "_cost": 0.5})
             for kind in cm.OBS_KINDS:
-                out.append({"algo": algo, "group": g, "mode": "S", "obs": kind, "_cost": 100})
+                out.append({"algo": algo, "group": g, "mode": "S", "obs": kind, "_cost": 5})
     return out
 
 
